@@ -10,6 +10,7 @@ package paymentsdb
 
 import (
 	"bufio"
+	"bytes"
 	"context"
 	"errors"
 	"fmt"
@@ -19,6 +20,7 @@ import (
 	"strconv"
 	"strings"
 	"sync"
+	"sync/atomic"
 	"testing"
 	"time"
 
@@ -39,7 +41,7 @@ type c16 struct {
 	rng  *rand.Rand
 	db   DB
 	ctx  context.Context
-	n    int    // case counter
+	n    int    // case number
 	keyN uint64 // session key counter (unique per registration)
 
 	// per-case
@@ -204,7 +206,7 @@ func (c *c16) mkAttempt(h int, id uint64, amt uint64, kind string, addr byte,
 
 	c.mu.Lock()
 	c.keyN++
-	k := c.keyN
+	k := uint64(c.n)<<24 | c.keyN
 	c.mu.Unlock()
 
 	hop := &route.Hop{
@@ -366,7 +368,7 @@ func (c *c16) opInflight() string {
 }
 
 func (c *c16) startCase(kind string) {
-	c.n++
+	c.keyN = 0
 	c.idBase = uint64(c.n) * 64
 	for i := range c.hashes {
 		var h lntypes.Hash
@@ -382,67 +384,453 @@ func (c *c16) startCase(kind string) {
 
 func (c *c16) endCase() { c.pf("END") }
 
-func TestVerifC16Probe(t *testing.T) {
-	db, _ := NewTestDB(t)
-	c := &c16{t: t, w: bufio.NewWriter(os.Stdout), db: db, ctx: context.Background()}
-	defer c.w.Flush()
-	c.startCase("probe")
-	p := func(s string) { c.pf("%s", s) }
-	p(c.opFetch(0))
-	p(c.opDel(0))
-	p(c.opDelFailed(0))
-	p(c.opFail(0, 1))
-	p(c.opReg(0, 0, 5, "m", 1, 10, 0))
-	p(c.opSettle(0, 0))
-	p(c.opFailAtt(0, 0))
-	p(c.opInit(0, 10))
-	p(c.opInit(0, 10))
-	p(c.opSettle(0, 0))
-	p(c.opFailAtt(0, 0))
-	p(c.opReg(0, 0, 5, "m", 1, 10, 1))
-	p(c.opReg(0, 0, 3, "m", 1, 10, 1))
-	p(c.opReg(0, 1, 6, "m", 1, 10, 1))
-	p(c.opReg(0, 1, 5, "p", 1, 10, 1))
-	p(c.opReg(0, 1, 5, "m", 2, 10, 1))
-	p(c.opReg(0, 1, 5, "m", 1, 11, 1))
-	p(c.opReg(0, 1, 5, "b", 1, 10, 1))
-	p(c.opReg(0, 1, 5, "m", 1, 10, 1))
-	p(c.opInflight())
-	p(c.opInit(1, 10))
-	p(c.opReg(1, 1, 5, "m", 1, 10, 1))
-	p(c.opReg(1, 2, 5, "m", 1, 10, 1))
-	p(c.opSettle(1, 0))
-	p(c.opFetch(0))
-	p(c.opFetch(1))
-	p(c.opFailAtt(0, 1))
-	p(c.opFailAtt(0, 1))
-	p(c.opSettle(0, 1))
-	p(c.opReg(0, 1, 2, "m", 1, 10, 1))
-	p(c.opFetch(0))
-	p(c.opSettle(0, 0))
-	p(c.opSettle(0, 0))
-	p(c.opFailAtt(0, 0))
-	p(c.opSettle(0, 3))
-	p(c.opFail(0, 2))
-	p(c.opInit(0, 10))
-	p(c.opDelFailed(0))
-	p(c.opFetch(0))
-	p(c.opDel(0))
-	p(c.opFetch(0))
-	p(c.opInflight())
-	p(c.opDel(1))
-	p(c.opDelFailed(1))
-	p(c.opFail(1, 3))
-	p(c.opReg(1, 3, 1, "m", 1, 10, 1))
-	p(c.opFailAtt(1, 2))
-	p(c.opDel(1))
-	p(c.opInit(1, 7))
-	p(c.opFetch(1))
-	p(c.opInit(2, 0))
-	p(c.opReg(2, 0, 0, "p", 0, 0, 0))
-	p(c.opReg(2, 1, 0, "p", 0, 0, 0))
-	p(c.opInit(2, 0))
-	p(c.opSettle(2, 0))
-	p(c.opFetch(2))
+
+// ---------------------------------------------------------------------------
+// generator
+
+// shadow is the generator's own rough picture of a payment; it only biases
+// the choice of the next operation (towards valid flows and towards the
+// remaining-amount boundary) and never depends on the store's answers, so
+// that both backends receive the same operation list for a seed.
+type c16ShadowAtt struct {
+	id  uint64
+	amt uint64
+	st  byte // 'I','S','F'
+}
+
+type c16Shadow struct {
+	exists bool
+	value  uint64
+	atts   []c16ShadowAtt
+	reason bool
+}
+
+func (p *c16Shadow) sent() uint64 {
+	var s uint64
+	for _, a := range p.atts {
+		if a.st != 'F' {
+			s += a.amt
+		}
+	}
+	return s
+}
+
+func (p *c16Shadow) status() int {
+	var infl, setl, fld bool
+	for _, a := range p.atts {
+		switch a.st {
+		case 'I':
+			infl = true
+		case 'S':
+			setl = true
+		case 'F':
+			fld = true
+		}
+	}
+	switch {
+	case infl:
+		return 2
+	case setl:
+		return 3
+	case p.reason:
+		return 4
+	case fld:
+		return 2
+	}
+	return 1
+}
+
+var c16Values = []uint64{1, 2, 3, 7, 10, 10, 10, 1000, 1000, 1 << 40, 1 << 61}
+
+func (c *c16) pickAmt(p *c16Shadow) uint64 {
+	var rem uint64
+	if p.value >= p.sent() {
+		rem = p.value - p.sent()
+	}
+	switch r := c.rng.Intn(100); {
+	case r < 26:
+		return rem
+	case r < 36:
+		return rem + 1
+	case r < 46:
+		if rem > 0 {
+			return rem - 1
+		}
+		return 0
+	case r < 66:
+		if rem >= 2 {
+			return rem / 2
+		}
+		return rem
+	case r < 74:
+		return 1
+	case r < 82:
+		return p.value
+	case r < 86:
+		return p.value + 1
+	case r < 89:
+		return 0
+	case r < 92:
+		if p.value > 0 {
+			return p.value - 1
+		}
+		return 0
+	default:
+		if p.value == 0 {
+			return 0
+		}
+		return uint64(c.rng.Int63n(int64(p.value%(1<<62)) + 1))
+	}
+}
+
+type c16Case struct {
+	wild   bool
+	mode   int // 0 mpp, 1 plain, 2 blinded, 3 mixed
+	sh     [c16Hashes]c16Shadow
+	nextID uint64
+	focus  int
+}
+
+func (c *c16) pickShape(cs *c16Case, p *c16Shadow) (kind string, addr byte, total uint64) {
+	v := p.value
+	mut := c.rng.Intn(100) < 14
+	mode := cs.mode
+	if mode == 3 {
+		mode = c.rng.Intn(3)
+	}
+	switch mode {
+	case 0:
+		kind, addr, total = "m", 1, v
+		if mut {
+			switch c.rng.Intn(6) {
+			case 0:
+				addr = 2
+			case 1:
+				total = v + 1
+			case 2:
+				kind = "p"
+			case 3:
+				kind = "b"
+			case 4:
+				kind = "bm"
+			case 5:
+				total = 0
+			}
+		}
+	case 1:
+		kind, addr, total = "p", 0, 0
+		if mut {
+			switch c.rng.Intn(3) {
+			case 0:
+				kind, addr, total = "m", 1, v
+			case 1:
+				kind, total = "b", v
+			case 2:
+				kind, addr, total = "m", 0, 0
+			}
+		}
+	default:
+		kind, addr, total = "b", 0, v
+		if v == 0 {
+			total = 5
+		}
+		if mut {
+			switch c.rng.Intn(6) {
+			case 0:
+				total = total + 1
+			case 1:
+				total = 0
+			case 2:
+				kind, addr = "m", 1
+			case 3:
+				kind = "bm"
+			case 4:
+				kind = "p"
+			case 5:
+				if total > 1 {
+					total--
+				}
+			}
+		}
+	}
+	return
+}
+
+func (c *c16) pickResolveID(cs *c16Case, h int) uint64 {
+	p := &cs.sh[h]
+	var infl, done []uint64
+	for _, a := range p.atts {
+		if a.st == 'I' {
+			infl = append(infl, a.id)
+		} else {
+			done = append(done, a.id)
+		}
+	}
+	r := c.rng.Intn(100)
+	switch {
+	case r < 72 && len(infl) > 0:
+		return infl[c.rng.Intn(len(infl))]
+	case r < 84 && len(done) > 0:
+		return done[c.rng.Intn(len(done))]
+	case r < 92 || !cs.wild:
+		if cs.wild {
+			return uint64(c.rng.Intn(c16Ids))
+		}
+		// an id that is never registered in this case
+		return 60 + uint64(c.rng.Intn(3))
+	default:
+		// wild: an id of another payment
+		o := &cs.sh[(h+1+c.rng.Intn(c16Hashes-1))%c16Hashes]
+		if len(o.atts) > 0 {
+			return o.atts[c.rng.Intn(len(o.atts))].id
+		}
+		return uint64(c.rng.Intn(c16Ids))
+	}
+}
+
+func (c *c16) genOp(cs *c16Case) {
+	if c.rng.Intn(100) < 12 {
+		cs.focus = c.rng.Intn(c16Hashes)
+	}
+	h := cs.focus
+	if c.rng.Intn(100) < 25 {
+		h = c.rng.Intn(c16Hashes)
+	}
+	p := &cs.sh[h]
+
+	// op weights
+	type wop struct {
+		name string
+		w    int
+	}
+	var ws []wop
+	if !p.exists {
+		ws = []wop{{"init", 70}, {"reg", 6}, {"settle", 4}, {"failatt", 4}, {"fail", 4},
+			{"del", 3}, {"delfailed", 3}, {"fetch", 4}, {"inflight", 2}}
+	} else {
+		switch p.status() {
+		case 1:
+			ws = []wop{{"init", 5}, {"reg", 60}, {"settle", 3}, {"failatt", 3}, {"fail", 7},
+				{"del", 4}, {"delfailed", 3}, {"fetch", 8}, {"inflight", 7}}
+		case 2:
+			ws = []wop{{"init", 6}, {"reg", 34}, {"settle", 13}, {"failatt", 20}, {"fail", 8},
+				{"del", 3}, {"delfailed", 4}, {"fetch", 6}, {"inflight", 6}}
+		case 3:
+			ws = []wop{{"init", 14}, {"reg", 14}, {"settle", 10}, {"failatt", 10}, {"fail", 12},
+				{"del", 10}, {"delfailed", 12}, {"fetch", 10}, {"inflight", 8}}
+		default:
+			ws = []wop{{"init", 30}, {"reg", 14}, {"settle", 8}, {"failatt", 8}, {"fail", 8},
+				{"del", 8}, {"delfailed", 10}, {"fetch", 8}, {"inflight", 6}}
+		}
+	}
+	tot := 0
+	for _, w := range ws {
+		tot += w.w
+	}
+	r := c.rng.Intn(tot)
+	name := ""
+	for _, w := range ws {
+		if r < w.w {
+			name = w.name
+			break
+		}
+		r -= w.w
+	}
+
+	switch name {
+	case "init":
+		v := c16Values[c.rng.Intn(len(c16Values))]
+		if c.rng.Intn(40) == 0 {
+			v = 0
+		}
+		c.pf("%s", c.opInit(h, v))
+		if !p.exists || p.status() == 4 {
+			*p = c16Shadow{exists: true, value: v}
+		}
+		if c.rng.Intn(2) == 0 {
+			c.pf("%s", c.opFetch(h))
+		}
+
+	case "reg":
+		var id uint64
+		if cs.wild {
+			id = uint64(c.rng.Intn(c16Ids))
+		} else {
+			id = cs.nextID
+			cs.nextID++
+		}
+		q := p
+		if !p.exists {
+			q = &c16Shadow{value: 10}
+		}
+		amt := c.pickAmt(q)
+		kind, addr, total := c.pickShape(cs, q)
+		if kind == "p" && c.rng.Intn(100) < 75 {
+			amt = q.value
+		}
+		fee := uint64(c.rng.Intn(4))
+		c.pf("%s", c.opReg(h, id, amt, kind, addr, total, fee))
+		if p.exists && (p.status() == 1 || p.status() == 2) && !p.reason &&
+			p.sent()+amt <= p.value && kind != "bm" {
+
+			found := false
+			for i := range p.atts {
+				if p.atts[i].id == id {
+					p.atts[i].amt = amt
+					found = true
+				}
+			}
+			if !found {
+				p.atts = append(p.atts, c16ShadowAtt{id, amt, 'I'})
+			}
+		}
+
+	case "settle", "failatt":
+		id := c.pickResolveID(cs, h)
+		if name == "settle" {
+			c.pf("%s", c.opSettle(h, id))
+		} else {
+			c.pf("%s", c.opFailAtt(h, id))
+		}
+		if p.exists && (p.status() == 1 || p.status() == 2) {
+			for i := range p.atts {
+				if p.atts[i].id == id && p.atts[i].st == 'I' {
+					if name == "settle" {
+						p.atts[i].st = 'S'
+					} else {
+						p.atts[i].st = 'F'
+					}
+				}
+			}
+		}
+
+	case "fail":
+		c.pf("%s", c.opFail(h, c.rng.Intn(6)))
+		if p.exists {
+			p.reason = true
+		}
+
+	case "del":
+		c.pf("%s", c.opDel(h))
+		if p.exists && p.status() != 2 {
+			*p = c16Shadow{}
+		}
+		if c.rng.Intn(2) == 0 {
+			c.pf("%s", c.opFetch(h))
+		}
+
+	case "delfailed":
+		c.pf("%s", c.opDelFailed(h))
+		if p.exists && p.status() != 2 {
+			var keep []c16ShadowAtt
+			for _, a := range p.atts {
+				if a.st != 'F' {
+					keep = append(keep, a)
+				}
+			}
+			p.atts = keep
+		}
+		if c.rng.Intn(2) == 0 {
+			c.pf("%s", c.opFetch(h))
+		}
+
+	case "fetch":
+		c.pf("%s", c.opFetch(h))
+
+	case "inflight":
+		c.pf("%s", c.opInflight())
+	}
+}
+
+func (c *c16) genCase(wild bool) {
+	kind := "contract"
+	if wild {
+		kind = "wild"
+	}
+	c.startCase(kind)
+	cs := &c16Case{wild: wild, mode: c.rng.Intn(4), focus: c.rng.Intn(c16Hashes)}
+	if c.rng.Intn(100) < 35 {
+		cs.mode = 0
+	}
+	n := 12 + c.rng.Intn(50)
+	for i := 0; i < n; i++ {
+		c.genOp(cs)
+	}
+	// closing observation of every payment and of the in-flight set
+	for h := 0; h < c16Hashes; h++ {
+		c.pf("%s", c.opFetch(h))
+	}
+	c.pf("%s", c.opInflight())
 	c.endCase()
+}
+
+func TestVerifC16(t *testing.T) {
+	out := os.Getenv("VERIF_OUT")
+	if out == "" {
+		t.Skip("VERIF_OUT not set")
+	}
+	seed, _ := strconv.ParseInt(os.Getenv("VERIF_SEED"), 10, 64)
+	if seed == 0 {
+		seed = 1
+	}
+	tier := os.Getenv("VERIF_TIER")
+	f, err := os.Create(out)
+	if err != nil {
+		t.Fatal(err)
+	}
+	defer f.Close()
+	w := bufio.NewWriterSize(f, 1<<20)
+	defer w.Flush()
+
+	nCases := 320
+	if tier == "thorough" {
+		nCases = 8000
+	}
+	if v := os.Getenv("VERIF_C16_CASES"); v != "" {
+		nCases, _ = strconv.Atoi(v)
+	}
+
+	// Every case draws all its choices from its own generator seeded by
+	// (seed, case number) and runs on hashes / attempt ids / session keys
+	// that are unique to the case, so cases can share a database and be
+	// executed by parallel workers (database commits are mostly idle
+	// waiting) while the trace stays a function of the seed only.
+	const workers = 12
+	const perDB = 40
+	bufs := make([]bytes.Buffer, nCases)
+	var next int64 = -1
+	var wg sync.WaitGroup
+	for wk := 0; wk < workers; wk++ {
+		wg.Add(1)
+		go func() {
+			defer wg.Done()
+			var db DB
+			done := 0
+			for {
+				i := int(atomic.AddInt64(&next, 1))
+				if i >= nCases {
+					return
+				}
+				if done%perDB == 0 {
+					// a fresh database: KVStore (default build)
+					// or SQLStore on sqlite (`-tags
+					// test_db_sqlite`), from the package's own
+					// test constructor.
+					db, _ = NewTestDB(t)
+				}
+				done++
+				c := &c16{
+					t: t, w: bufio.NewWriter(&bufs[i]), db: db,
+					ctx: context.Background(), n: i + 1,
+					rng: rand.New(rand.NewSource(seed*1000003 + int64(i))),
+				}
+				c.genCase(c.rng.Intn(100) < 40)
+				c.w.Flush()
+			}
+		}()
+	}
+	wg.Wait()
+	for i := range bufs {
+		w.Write(bufs[i].Bytes())
+	}
 }
